@@ -136,6 +136,9 @@ def shard_worker(args):
         for i, case in enumerate(mod.enumerate_cases(tier)):
             if i % nshards != shard:
                 continue
+            if isinstance(case, dict) and case.get("_excluded"):
+                col.excluded[case["_excluded"]] += 1  # enumerated case inside an open finding's region
+                continue
             col.add(case, _exec_case(mod, case, timeout))
     n = budget.get("examples", 0)
     per = n // nshards + (1 if shard < n % nshards else 0)
